@@ -44,6 +44,7 @@ structure Tables where
   writerIntKinds : List String
   anonAmongOthers : Bool
   metaArgsUnchecked : Bool
+  ptrValueDistinct : Bool
   reflectOptionalRefused : Bool
   eventVarsEmpty : Bool
   symbolBaseEnum : Bool
